@@ -1,15 +1,15 @@
 CONSTANTS
-  S = 4
-  M = 1
+  S = 2
+  M = 2
   MaxT = 3
   Exps <- ExpsQ
   InitExps <- InitQ
   EndVecs <- NoExplicitEnd
   CycSet <- CycParamsQ
-  Cyc = TRUE
-  Dec = FALSE
+  Cyc = FALSE
+  Dec = TRUE
   DecSet <- DecParamsQ
 SPECIFICATION Spec
-INVARIANTS DefinitionsAgree VitMeaning VitResult MantissaBound CycleLemma NoStall
+INVARIANTS DefinitionsAgree VitMeaning VitResult MantissaBound DecLemma NoStall
 PROPERTY Progress
 CHECK_DEADLOCK FALSE
